@@ -117,7 +117,7 @@ def make_cases(tier, table, meshes):
                 elif dim == 2:
                     perms = [PERMS[(2 * ti) % 8], PERMS[(2 * ti + 5) % 8]]
                 elif heavy:
-                    perms = ["none", PERMS[1 + ti % 7]]
+                    perms = [PERMS[1 + (ti + (0 if fam == "simplex" else 3)) % 7]]
                 else:
                     perms = ["none", "random", "colored", "gcmk_rev"]
                 for pi, perm in enumerate(perms):
